@@ -26,7 +26,7 @@ pub fn mutate(src: &str, c: &mut Choices<'_>, n_mut: usize) -> (String, Vec<&'st
     }
     for _ in 0..n_mut.max(1) {
         let i = sig[c.below(sig.len())].min(pieces.len() - 1);
-        match c.below(9) {
+        match c.below(10) {
             0 => {
                 pieces[i].clear();
                 applied.push("delete");
@@ -92,6 +92,24 @@ pub fn mutate(src: &str, c: &mut Choices<'_>, n_mut: usize) -> (String, Vec<&'st
                 }
                 pieces[i] = format!("{}{s}{}", &p[..at], &p[at..]);
                 applied.push("non-ascii");
+            }
+            9 => {
+                // an identifier with multi-byte letters next to `_` and digits (names are
+                // compared chunk-wise by the version sort)
+                let idents: Vec<usize> = sig.iter().copied().filter(|k| *k < pieces.len() && matches!(kinds.get(*k), Some(TK::Ident))).collect();
+                if !idents.is_empty() {
+                    let k = idents[c.below(idents.len())];
+                    let l = *c.pick(&["é", "ß", "日本", "Ω", "ñ", "一", "β"]);
+                    let base = pieces[k].clone();
+                    pieces[k] = match c.below(5) {
+                        0 => format!("{l}_{base}"),
+                        1 => format!("{base}{l}{}", c.below(100)),
+                        2 => format!("{l}{}_{base}", c.below(10)),
+                        3 => format!("{base}_{l}_{}", c.below(10)),
+                        _ => format!("{l}{l}0{}{l}", c.below(10)),
+                    };
+                }
+                applied.push("unicode-ident");
             }
             _ => {
                 // replace the token by another token of the file
